@@ -41,6 +41,8 @@ func init() {
 
 func runC05(c *eng.Ctx) {
 	p := c.P
+	pageFileRemovedOnlyByTruncation(c)
+	getRefusesNothingTheAppendAdmitted(c)
 	everyPageFileIsLoaded(c)
 	replicaLogTestAndAppendAtomic(c)
 
